@@ -11,7 +11,7 @@ def run(ctx):
     ctx.sany("BlobStore", "VolumeImpl", "BlobStoreTrace")
     kf_all = volfam.KF_ALL
     base = {"Keys": {1, 2}, "Cookies": {"c1", "c2"}, "VTtl": "", "KF": kf_all, "Algos": set(),
-            "WithRestart": True, "WithRo": True}
+            "WithRestart": True, "WithRo": True, "KeyOrderedScanIdx": False}
     # 1. layer B refines layer A (modulo the listed deviations) over every history up to the bound
     mc = ctx.instance("MC_C01", "VolumeImpl", "VolumeImpl_mc.cfg",
                       dict(base, Datas={"e", "a", "b"} if ctx.thorough else {"e", "a"}, MetaSet={"m0", "m1", "m2"},
